@@ -305,12 +305,22 @@ impl<T> OnceCell<T> {
         result
     }
 
+    /// The initialiser runs inside the cell's own (blocking) once-lock. A controlled scheduler must
+    /// know about that lock, or a thread that is switched out *inside* the initialiser while another
+    /// one enters `get_or_init` would leave both waiting for ever: the slow path is announced as
+    /// a lock acquisition / release on the cell.
     pub fn get_or_init<F>(&self, f: F) -> &T
     where
         F: FnOnce() -> T,
     {
         yield_point(Op::CellInsert, self.addr());
+        if let Some(value) = self.0.get() {
+            yield_point(Op::Done, self.addr());
+            return value;
+        }
+        yield_point(Op::LockAcquire, self.addr());
         let result = self.0.get_or_init(f);
+        yield_point(Op::LockRelease, self.addr());
         yield_point(Op::Done, self.addr());
         result
     }
@@ -320,7 +330,13 @@ impl<T> OnceCell<T> {
         F: FnOnce() -> Result<T, E>,
     {
         yield_point(Op::CellInsert, self.addr());
+        if let Some(value) = self.0.get() {
+            yield_point(Op::Done, self.addr());
+            return Ok(value);
+        }
+        yield_point(Op::LockAcquire, self.addr());
         let result = self.0.get_or_try_init(f);
+        yield_point(Op::LockRelease, self.addr());
         yield_point(Op::Done, self.addr());
         result
     }
